@@ -7,7 +7,7 @@ import Mamba.Lemmas.CanonFCert
   (the new divider carries the new age);
 * `spl_le_binIdx`, `spl_le_binStartOf`, `binStartOf_of_eq_spl` — a position in a non-singleton bin lies behind the
   singleton prefix;
-* `splitBin_cert` — the interface theorem (`ExpandCert` / `ExpandStale` are hypotheses).
+* `splitBin_cert` — the interface theorem (`ExpandCert` is a hypothesis).
 -/
 namespace CanonF
 
@@ -103,20 +103,14 @@ theorem binStartOf_of_eq_spl {op : OP} {i : Nat} (hp : PrefixSingle op)
 
 /-! ## the certificate invariant across `splitBin` -/
 
-theorem splitBin_cert (hx : ExpandCert) (hy : ExpandStale) {n : Nat} {nb : Nbrs} {cb fl : Sl Nat} {op op' : OP} {i : Nat} {w : Bool}
+theorem splitBin_cert (hx : ExpandCert) {n : Nat} {nb : Nbrs} {cb fl : Sl Nat} {op op' : OP} {i : Nat} {w : Bool}
     (h : PartInv n op) (ha : AgeInv op) (hi : i < n) (hns : NonSingleton op.binDividers.toList i)
     (hv : VN nb cb fl op) (hs : splitBin nb cb fl op i = .ok (w, op')) :
     (w = false → VN nb cb fl op') ∧ (w = true → VAny nb cb fl op') := by
   obtain ⟨op1, p1, a1, age1, v1, s1, hbd, hag, hord, hif⟩ := splitBin_decomp_ages h ha hi hns hs
-  -- in both cases of `VN` the prefix consists of singletons and bin `spl` is not a singleton
-  have hp : PrefixSingle op := by
-    rcases hv with hv | hv
-    · exact hv.pre.toPrefixSingle
-    · exact hv.1.pre
-  have hnext : op.binDividers.toList[op.spl]? ≠ some (op.spl + 1) := by
-    rcases hv with hv | hv
-    · exact hv.pre.next
-    · exact hv.2
+  have hvc : VClean nb op := hv
+  have hp : PrefixSingle op := hvc.pre.toPrefixSingle
+  have hnext : op.binDividers.toList[op.spl]? ≠ some (op.spl + 1) := hvc.pre.next
   have hb := spl_le_binIdx h hp hns
   have hst := spl_le_binStartOf h hi hp hns
   have hbs : op.binDividers.toList.Pairwise (· < ·) := (List.pairwise_cons.1 h.sorted).2
@@ -151,45 +145,34 @@ theorem splitBin_cert (hx : ExpandCert) (hy : ExpandStale) {n : Nat} {nb : Nbrs}
     intro p hpp
     rw [hord]
     exact moveFront_lt _ _ _ hsi (by omega) p (by omega)
-  have hstale1 : VStale nb cb fl op → VStale nb cb fl op1 := by
-    intro hvs
-    refine ⟨hpre1, by rw [v1]; exact hvs.wf, ?_, by rw [v1]; exact hvs.poisoned, ?_⟩
-    rotate_left
-    · have := hvs.lt; rw [s1, p1.lenOrder]; rw [h.lenOrder] at this; exact this
-    obtain ⟨extra, e1, e2⟩ := hvs.val
-    exact ⟨extra, by rw [v1, hcert]; exact e1, by rw [s1]; exact e2⟩
   by_cases hsp : binIdx op.binDividers.toList i = op.spl
   · -- bin `spl` is split: it becomes a singleton of the new age and `expandValue` runs
     rw [if_pos hsp] at hif
-    have hstart := binStartOf_of_eq_spl hp hsp
-    have hbd1 : op1.binDividers.toList[op1.spl]? = some (op1.spl + 1) := by
-      rw [s1, hbd, List.getElem?_append_right (by omega), htk, hsp, hstart]
-      simp
-    have hag1 : op1.binAges.toList[op1.spl]? = some op1.age := by
-      rw [s1, hag, List.getElem?_append_right (by omega), htka, hsp, age1]
-      simp
+    have hd1 : (divs op1)[op1.spl]? = some (binStartOf op.binDividers.toList i + 1, op1.age) := by
+      unfold divs
+      rw [List.getElem?_zip_eq_some]
+      constructor
+      · show op1.binDividers.toList[op1.spl]? = _
+        rw [s1, hbd, List.getElem?_append_right (by omega), htk, hsp]
+        simp
+      · show op1.binAges.toList[op1.spl]? = _
+        rw [s1, hag, List.getElem?_append_right (by omega), htka, hsp, age1]
+        simp
     obtain ⟨_, f2, f3, _, f5, _⟩ := expandValue_frame hif
-    have hsa : op'.spl = op1.spl → StaleAge op' := by
-      intro e _
-      rw [e, f3, f5]; exact hag1
-    rcases hv with hvc | hvs
-    · obtain ⟨r1, r2⟩ := hx n nb cb fl op1 op' w p1 hpre1 (by rw [v1]; exact hvc.wf)
-        (by rw [v1, hcert]; exact hvc.val) hif
-      refine ⟨fun hw => Or.inl (r1 hw), fun hw => ?_⟩
-      obtain ⟨q1, q2⟩ := r2 hw
-      exact Or.inr ⟨q1, hsa q2⟩
-    · obtain ⟨r1, r2, r3⟩ := hy n nb cb fl op1 op' w p1 (hstale1 hvs.1) hbd1 hif
-      refine ⟨fun hw => ?_, fun _ => Or.inr ⟨r2, hsa r3⟩⟩
-      rw [r1] at hw; cases hw
+    obtain ⟨r1, r2⟩ := hx n nb cb fl op1 op' w p1 hpre1 (by rw [v1]; exact hvc.wf)
+      (by rw [v1, hcert]; exact hvc.val) hif
+    refine ⟨fun hw => r1 hw, fun hw => ?_⟩
+    obtain ⟨q1, q2⟩ := r2 hw
+    refine Or.inr ⟨q1, op1.spl, binStartOf op.binDividers.toList i + 1, q2, ?_⟩
+    unfold divs at hd1 ⊢
+    rw [f2, f3, f5]; exact hd1
   · -- a later bin is split: nothing the certificate depends on changes
     rw [if_neg hsp] at hif
     obtain ⟨rfl, rfl⟩ := hif
     have hnext1 : op'.binDividers.toList[op'.spl]? ≠ some (op'.spl + 1) := by
       rw [s1, hlow op.spl (by omega)]; exact hnext
-    have hvn : VN nb cb fl op' := by
-      rcases hv with hvc | hvs
-      · exact Or.inl ⟨⟨hpre1, hnext1⟩, by rw [v1]; exact hvc.wf, by rw [v1, hcert]; exact hvc.val⟩
-      · exact Or.inr ⟨hstale1 hvs.1, hnext1⟩
+    have hvn : VN nb cb fl op' :=
+      ⟨⟨hpre1, hnext1⟩, by rw [v1]; exact hvc.wf, by rw [v1, hcert]; exact hvc.val⟩
     exact ⟨fun _ => hvn, fun hw => by cases hw⟩
 
 end CanonF
